@@ -1,6 +1,7 @@
 package conserve
 
 import (
+	"fmt"
 	"go/ast"
 	"go/token"
 	"go/types"
@@ -15,6 +16,8 @@ import (
 func RepairRules(p *core.Prog, r *core.Report) {
 	r.Rule("GROUP-KEY", "the grouping key of gts.Repair is computed from both the feature's Key and its Props, so features that differ in either are never in one group", 1)
 	r.Rule("FORCE-SOURCE", "the `force` flag handed to LocationList.Push is exactly `Key == \"source\"` of a feature of the group", 1)
+	r.Rule("GROUP-ALL", "the loop of gts.Repair that files feature indices into the group map does so unconditionally for every element (no continue/break, the map append at the top level of the body)", 1)
+	r.Rule("KEEP-ALL", "every iteration of the loop over the groups appends indices of the group to the keep list exactly once on every path (the `len(group) > 0` wrapper counts as always taken)", 1)
 	r.Rule("ONLY-LOC", "Repair works on a copy of its argument (make + copy) and the only field it assigns through an element of that copy is Loc", 2)
 	info := p.Info(core.PkgGts)
 	fd := p.FuncDecl(core.PkgGts, "Repair")
@@ -122,4 +125,163 @@ func RepairRules(p *core.Prog, r *core.Report) {
 	} else {
 		r.Bad("ONLY-LOC", "gts.Repair|fields", p.Pos(bad), "Repair assigns a feature's key or qualifiers")
 	}
+	repairAll(p, r, info, fd)
+}
+
+// repairAll decides GROUP-ALL and KEEP-ALL: no feature falls out of Repair
+// other than by being merged into a neighbour of its own group.
+func repairAll(p *core.Prog, r *core.Report, info *types.Info, fd *ast.FuncDecl) {
+	// GROUP-ALL: the loop that files indices into the map does so for every element
+	var groupLoop, keepLoop *ast.RangeStmt
+	var keepObj types.Object
+	ast.Inspect(fd.Body, func(n ast.Node) bool {
+		rs, ok := n.(*ast.RangeStmt)
+		if !ok {
+			return true
+		}
+		for _, st := range rs.Body.List {
+			if mapAppend(info, st) != nil && groupLoop == nil {
+				groupLoop = rs
+			}
+		}
+		if _, isMap := info.TypeOf(rs.X).Underlying().(*types.Map); isMap && keepLoop == nil {
+			keepLoop = rs
+		}
+		return true
+	})
+	if groupLoop == nil {
+		// maybe the append is nested: find any loop that contains one
+		ast.Inspect(fd.Body, func(n ast.Node) bool {
+			if rs, ok := n.(*ast.RangeStmt); ok && groupLoop == nil {
+				ast.Inspect(rs.Body, func(m ast.Node) bool {
+					if st, ok := m.(ast.Stmt); ok && mapAppend(info, st) != nil {
+						groupLoop = rs
+					}
+					return true
+				})
+			}
+			return true
+		})
+	}
+	switch {
+	case groupLoop == nil:
+		r.Und("GROUP-ALL", "gts.Repair", p.Pos(fd.Pos()), "cannot find the loop that files feature indices into the group map")
+	case leaves(groupLoop.Body):
+		r.Bad("GROUP-ALL", "gts.Repair", p.Pos(groupLoop.Pos()), "the grouping loop contains continue/break/return: a feature that is skipped is in no group and never reaches the result")
+	default:
+		top := false
+		for _, st := range groupLoop.Body.List {
+			if mapAppend(info, st) != nil {
+				top = true
+			}
+		}
+		if top {
+			r.Ok("GROUP-ALL", "gts.Repair", p.Pos(groupLoop.Pos()), "every index is filed into a group unconditionally")
+		} else {
+			r.Bad("GROUP-ALL", "gts.Repair", p.Pos(groupLoop.Pos()), "the index is filed into its group only under a condition: the other features never reach the result")
+		}
+	}
+	// KEEP-ALL: every iteration over the groups appends to the keep list exactly once
+	if keepLoop == nil {
+		r.Und("KEEP-ALL", "gts.Repair", p.Pos(fd.Pos()), "cannot find the loop over the groups")
+		return
+	}
+	var gv types.Object
+	if keepLoop.Value != nil {
+		gv = core.ObjOf(info, keepLoop.Value)
+	}
+	isKeep := func(st ast.Stmt) bool {
+		as, ok := st.(*ast.AssignStmt)
+		if !ok || len(as.Lhs) != 1 || len(as.Rhs) != 1 {
+			return false
+		}
+		c, ok := ast.Unparen(as.Rhs[0]).(*ast.CallExpr)
+		if !ok || !core.IsBuiltin(info, c, "append") || len(c.Args) < 2 {
+			return false
+		}
+		o := core.ObjOf(info, as.Lhs[0])
+		if o == nil || o != core.ObjOf(info, c.Args[0]) || gv == nil || !core.UsesObj(info, c.Args[1], gv) {
+			return false
+		}
+		keepObj = o
+		return true
+	}
+	nonEmpty := func(cond ast.Expr) bool {
+		be, ok := ast.Unparen(cond).(*ast.BinaryExpr)
+		if !ok || (be.Op != token.GTR && be.Op != token.NEQ) {
+			return false
+		}
+		c, ok := ast.Unparen(be.X).(*ast.CallExpr)
+		z, okz := core.ConstInt(info, be.Y)
+		return ok && okz && z == 0 && core.IsBuiltin(info, c, "len") && gv != nil && core.ObjOf(info, c.Args[0]) == gv
+	}
+	var count func(list []ast.Stmt) (int, int)
+	count = func(list []ast.Stmt) (int, int) {
+		lo, hi := 0, 0
+		for _, s := range list {
+			if isKeep(s) {
+				lo++
+				hi++
+				continue
+			}
+			switch st := s.(type) {
+			case *ast.IfStmt:
+				a, b := count(st.Body.List)
+				c, d := 0, 0
+				if st.Else != nil {
+					if blk, ok := st.Else.(*ast.BlockStmt); ok {
+						c, d = count(blk.List)
+					} else {
+						c, d = count([]ast.Stmt{st.Else})
+					}
+				} else if nonEmpty(st.Cond) {
+					c, d = a, b // a group is never empty: the wrapper always runs
+				}
+				lo += min(a, c)
+				hi += max(b, d)
+			case *ast.BlockStmt:
+				a, b := count(st.List)
+				lo += a
+				hi += b
+			case *ast.ForStmt, *ast.RangeStmt, *ast.SwitchStmt, *ast.TypeSwitchStmt:
+				ast.Inspect(st, func(n ast.Node) bool {
+					if ss, ok := n.(ast.Stmt); ok && isKeep(ss) {
+						hi += 2
+					}
+					return true
+				})
+			}
+		}
+		return lo, hi
+	}
+	lo, hi := count(keepLoop.Body.List)
+	switch {
+	case leaves(keepLoop.Body):
+		r.Bad("KEEP-ALL", "gts.Repair", p.Pos(keepLoop.Pos()), "the loop over the groups contains continue/break/return: a group that is skipped loses all its features")
+	case lo != 1 || hi != 1:
+		r.Bad("KEEP-ALL", "gts.Repair", p.Pos(keepLoop.Pos()), fmt.Sprintf("a group's indices are appended to the keep list %d..%d times per group instead of exactly once", lo, hi))
+	default:
+		_ = keepObj
+		r.Ok("KEEP-ALL", "gts.Repair", p.Pos(keepLoop.Pos()), "every group contributes to the keep list exactly once")
+	}
+}
+
+// mapAppend: st is `m[k] = append(m[k], i)`.
+func mapAppend(info *types.Info, st ast.Stmt) *ast.IndexExpr {
+	as, ok := st.(*ast.AssignStmt)
+	if !ok || len(as.Lhs) != 1 || len(as.Rhs) != 1 {
+		return nil
+	}
+	ix, ok := ast.Unparen(as.Lhs[0]).(*ast.IndexExpr)
+	if !ok {
+		return nil
+	}
+	if _, isMap := info.TypeOf(ix.X).Underlying().(*types.Map); !isMap {
+		return nil
+	}
+	c, ok := ast.Unparen(as.Rhs[0]).(*ast.CallExpr)
+	if !ok || !core.IsBuiltin(info, c, "append") {
+		return nil
+	}
+	return ix
 }
